@@ -7,6 +7,7 @@ import PdshVerif.Opt.WcollPaths
 import PdshVerif.Opt.WcollAssemble
 import PdshVerif.Opt.WcollSplit
 import PdshVerif.Opt.WcollTargets
+import PdshVerif.Opt.WcollFd
 import PdshVerif.Opt.Settings
 import PdshVerif.Dsh.Exit
 
@@ -385,6 +386,36 @@ example : listSplit [':'] (dirname "/abs/d/A".toList) = [WcollSpec.dirOf "/abs/d
 
 example : LineOK "d".toList "#include \tB ".toList := ⟨by decide, by decide, by decide⟩
 example : LineOK "d".toList " n[1-3] # comment".toList := ⟨by decide, by decide, by decide⟩
+
+/-! ## descriptors: what the reader holds open (ghost `Fd` threaded through the reader, Opt/WcollFd.lean) -/
+
+/-- the ghost does not influence the reader: erasing it gives `readFile` back -/
+theorem fd_ghost_erasable (mode : LineMode) (fs : FS) (dirs : List (List Char)) (k : Nat) (f : List Char)
+    (s : Ctx × Fd) : (readFileG mode fs dirs k f s).1 = readFile mode fs dirs k f s.1 :=
+  readFileG_erase mode fs dirs k f s
+
+/-- EVERY STREAM IS CLOSED AGAIN: when `wcoll_ctx_read_file` returns — file read, skipped as a duplicate
+(the guard comes before `fopen`), missing or unreadable — the reader holds exactly the streams it held before,
+for every file system and include graph.  (A reader that opens first and then returns from the guard without
+`fclose` breaks this by one descriptor per skipped duplicate; checks/c10.py runs the real pdsh under a low
+RLIMIT_NOFILE with more skipped duplicates than descriptors.) -/
+theorem descriptors_balanced (mode : LineMode) (fs : FS) (dirs : List (List Char)) (k : Nat) (f : List Char)
+    (s : Ctx × Fd) : (readFileG mode fs dirs k f s).2.nopen = s.2.nopen :=
+  (readFileG_fd mode fs dirs k f s).1
+
+/-- ONE STREAM PER INCLUDE LEVEL: the number of files open at the same time never exceeds the include depth -/
+theorem open_files_le_depth (mode : LineMode) (fs : FS) (dirs : List (List Char)) (k : Nat) (f : List Char)
+    (s : Ctx × Fd) : (readFileG mode fs dirs k f s).2.peak ≤ max s.2.peak (s.2.nopen + k) :=
+  (readFileG_fd mode fs dirs k f s).2
+
+/-- ... hence never the number of files + 1, however often files name one another -/
+theorem open_files_le_files (mode : LineMode) (fs : FS) (dirs : List (List Char)) (f : List Char) (c : Ctx) :
+    (readFileG mode fs dirs (fuelFor fs) f (c, {})).2.peak ≤ fs.length + 1 := by
+  have h := (readFileG_fd mode fs dirs (fuelFor fs) f (c, {})).2
+  simpa [fuelFor] using h
+
+/-- three files that name one another in every way (cycle, diamond): three streams at most, none left open -/
+example : (readFileG shipped demoFS ["d".toList] (fuelFor demoFS) "A".toList ({}, {})).2 = ⟨0, 3⟩ := by decide
 
 /-! ## C10 ∘ C02 ∘ C01: from the command line to the hosts pdsh goes on with -/
 section EndToEnd
